@@ -16,4 +16,5 @@ def obligations(tier):
     obls += [e2e_obl(c, ('sym', 'gain'), tier) for c in align_cfgs(tier)]
     obls += [e2e_obl(c, ('sym',), tier) for c in e2e_cfgs(tier)[:8]]
     obls += [plan_obl(1, 0)]      # planner pieces of cr.c (set_dft_length / dft_stage_init / validation prefix)
+    obls.append(init_qq_obl())      # real _soxr_init for the quick recipe: cubic stage inside its envelope
     return obls
